@@ -215,6 +215,16 @@ def union_facts(a, b, u):
     return [z3.Implies(z3.And(fin(a), fin(b)), fin(u))]
 
 
+def union_disjoint(F, p, A, B, U):
+    """U == A u B, A n B == {}  =>  F(U) == F(A) + F(B)   (Finset.sum_union)"""
+    _lemma_uses.append(("union-disjoint:" + F.name, "Finset.sum_union"))
+    k = F._bound("ku")
+    return z3.Implies(z3.And(fin(A), fin(B),
+                             z3.ForAll([k], z3.Not(z3.And(z3.Select(A, k), z3.Select(B, k)))),
+                             z3.ForAll([k], z3.Select(U, k) == z3.Or(z3.Select(A, k), z3.Select(B, k)))),
+                      F.f(*p, U) == F.f(*p, A) + F.f(*p, B))
+
+
 def add_axiom(owner, formula, why):
     _axioms.append((owner, formula, why))
 
